@@ -4,6 +4,7 @@ import (
 	"fmt"
 	"go/token"
 	"go/types"
+	"strings"
 
 	. "pandoravet/core"
 
@@ -58,6 +59,7 @@ func runC20(c *Ctx) {
 	}
 	c20Table(c)
 	c20Entries(c)
+	c20Target(c)
 }
 
 func fieldOfEntry(v ssa.Value, entry ssa.Value, name string) bool {
@@ -536,4 +538,159 @@ func isGenericStd(cl *ssa.Call, pkg, name string) bool {
 	}
 	p := sc.Pkg.Pkg.Path()
 	return p == pkg || p == "golang.org/x/exp/"+pkg // the x/exp predecessors of maps / slices
+}
+
+// ---- O20.8: every client the guns shoot through is connected to the configured target
+
+var sGrpcDial = []Spec{
+	{"google.golang.org/grpc", "", "DialContext"},
+	{"google.golang.org/grpc", "", "Dial"},
+	{"google.golang.org/grpc", "", "NewClient"},
+}
+var sNewStub = Spec{"github.com/jhump/protoreflect/dynamic/grpcdynamic", "", "NewStub"}
+
+// c20ConnTarget classifies where the *grpc.ClientConn value v was dialed to: the roots of the target strings of the
+// grpc.Dial* calls it can come from, followed through the connection helpers of the package (results of callees,
+// parameters to the arguments of all call sites). ok=false: some origin of the value is not a dial.
+func c20ConnTarget(v ssa.Value, env map[*ssa.Parameter]ssa.Value, depth int, seen map[ssa.Value]bool) (targets []ssa.Value, ok bool) {
+	if depth > 6 {
+		return nil, false
+	}
+	ok = true
+	for _, r := range Roots(v, false) {
+		r = Strip(r)
+		if seen[r] {
+			continue
+		}
+		seen[r] = true
+		if IsNilConst(r) {
+			continue
+		}
+		if p, isP := r.(*ssa.Parameter); isP {
+			if a, bound := env[p]; bound {
+				t, k := c20ConnTarget(a, env, depth+1, seen)
+				targets, ok = append(targets, t...), ok && k
+				continue
+			}
+			sites := PkgCallers(p.Parent())
+			if len(sites) == 0 {
+				return nil, false
+			}
+			for _, site := range sites {
+				for i, q := range p.Parent().Params {
+					if q == p {
+						a := ArgOfParam(site, p.Parent(), i)
+						if a == nil {
+							return nil, false
+						}
+						t, k := c20ConnTarget(a, env, depth+1, seen)
+						targets, ok = append(targets, t...), ok && k
+					}
+				}
+			}
+			continue
+		}
+		// a named result spilled into a cell (the function defers): what was stored into it
+		var cell *ssa.Alloc
+		if u, isU := r.(*ssa.UnOp); isU && u.Op == token.MUL {
+			cell, _ = u.X.(*ssa.Alloc)
+		} else if a, isA := r.(*ssa.Alloc); isA {
+			cell = a
+		}
+		if cell != nil {
+			sts := StoresTo(cell)
+			if len(sts) == 0 {
+				return nil, false
+			}
+			for _, st := range sts {
+				t, k := c20ConnTarget(st.Val, env, depth+1, seen)
+				targets, ok = append(targets, t...), ok && k
+			}
+			continue
+		}
+		cl, _ := CallOfValue(r)
+		if cl == nil {
+			return nil, false
+		}
+		if MatchCC(&cl.Call, sGrpcDial...) {
+			idx := 0
+			if MatchCC(&cl.Call, sGrpcDial[0]) {
+				idx = 1
+			}
+			targets = append(targets, c20TargetRoots(cl.Call.Args[idx], env, 0)...)
+			continue
+		}
+		sc := cl.Call.StaticCallee()
+		if sc == nil || len(sc.Blocks) == 0 || sc.Pkg == nil || !IsPandora(sc.Pkg.Pkg.Path()) {
+			return nil, false
+		}
+		env2 := map[*ssa.Parameter]ssa.Value{}
+		for k, v := range env {
+			env2[k] = v
+		}
+		for i, p := range sc.Params {
+			if a := ArgOfParam(cl, sc, i); a != nil {
+				env2[p] = a
+			}
+		}
+		n := 0
+		EachInstr(sc, func(in ssa.Instruction) {
+			if ret, isR := in.(*ssa.Return); isR && len(ret.Results) > 0 {
+				n++
+				t, k := c20ConnTarget(ret.Results[0], env2, depth+1, seen)
+				targets, ok = append(targets, t...), ok && k
+			}
+		})
+		if n == 0 {
+			return nil, false
+		}
+	}
+	return targets, ok
+}
+
+// c20TargetRoots: the roots of a dial target string, parameters replaced by what the call chain bound them to.
+func c20TargetRoots(v ssa.Value, env map[*ssa.Parameter]ssa.Value, depth int) []ssa.Value {
+	var out []ssa.Value
+	for _, r := range Roots(v, false) {
+		if p, isP := Strip(r).(*ssa.Parameter); isP && depth < 6 {
+			if a, bound := env[p]; bound {
+				out = append(out, c20TargetRoots(a, env, depth+1)...)
+				continue
+			}
+		}
+		out = append(out, Strip(r))
+	}
+	return out
+}
+
+func c20Target(c *Ctx) {
+	c.Rule("O20.8", "calls reach the configured target: every grpcdynamic.Stub the guns shoot through (NewStub in components/guns/grpc..., per instance or in the shared client pool) is made from a connection whose every origin is a grpc dial of the gun's Conf.Target itself - never the reflection connection (Target with reflect_port substituted), whose only uses are the reflection client and Close")
+	P := c.P
+	n := 0
+	for _, fn := range P.ProdFuncs() {
+		if !strings.HasPrefix(PkgOf(fn), Mod+"/components/guns/grpc") {
+			continue
+		}
+		EachInstr(fn, func(in ssa.Instruction) {
+			cl, ok := in.(*ssa.Call)
+			if !ok || !MatchCC(&cl.Call, sNewStub) {
+				return
+			}
+			n++
+			targets, okDial := c20ConnTarget(cl.Call.Args[0], map[*ssa.Parameter]ssa.Value{}, 0, map[ssa.Value]bool{})
+			bad := ""
+			for _, t := range targets {
+				fv, _ := FieldOf(t)
+				if fv == nil || fv.Name() != "Target" {
+					bad = "a dial target that is not Conf.Target: " + t.String()
+					if t.Pos().IsValid() {
+						bad += " at " + P.Pos(t.Pos())
+					}
+				}
+			}
+			c.Check(okDial && len(targets) > 0 && bad == "", "O20.8", fk(fn)+":stub-connection-dials-Conf.Target", cl.Pos(),
+				fmt.Sprintf("every origin of the connection is a grpc dial: %v; %d dial target(s) %s", okDial, len(targets), bad))
+		})
+	}
+	c.Floor("O20.8", "grpcdynamic.NewStub calls in the gRPC guns", n, 2)
 }
